@@ -200,3 +200,47 @@ def check_bake_after_mut(report, facts, rule):
                                                         line=order[b][1].lineno))
     report.sample({'effects': {k: sorted(v) for k, v in eff.items()}})
     return eff
+
+
+def check_live_env(report, facts, rule):
+    """Every environment handed to an evaluation inside a pass that also moves labels must be a *live view* of the label
+    table (ChainMap(constants, labels) or the dict itself): a copy taken before the loop goes stale as soon as the pass shifts
+    labels, so later decisions in the same pass are taken on offsets that are no longer true."""
+    n = 0
+    for name, guard, node, args, tgt in pipeline(facts):
+        fn = facts.funcs[name]
+        params = [a.arg for a in fn.args.args]
+        if 'labels' not in params:
+            continue
+        mutates = any(isinstance(c, ast.Call) and isinstance(c.func, ast.Attribute) and c.func.attr in ('update', '__setitem__', 'pop', 'clear')
+                      and isinstance(c.func.value, ast.Name) and c.func.value.id == 'labels' for c in ast.walk(fn)) or \
+            any(isinstance(s, ast.Assign) and any(isinstance(t, ast.Subscript) and isinstance(t.value, ast.Name) and t.value.id == 'labels' for t in s.targets) for s in ast.walk(fn))
+        # locals whose definition mentions labels
+        for st in ast.walk(fn):
+            if not (isinstance(st, ast.Assign) and len(st.targets) == 1 and isinstance(st.targets[0], ast.Name)):
+                continue
+            v = st.value
+            mentions = any(isinstance(x, ast.Name) and x.id == 'labels' for x in ast.walk(v))
+            if not mentions or st.targets[0].id == 'labels':
+                continue
+            var = st.targets[0].id
+            # is this local passed on as an argument of a call (an environment), as opposed to labels.update(<it>)?
+            used_as_env = False
+            for c in ast.walk(fn):
+                if isinstance(c, ast.Call):
+                    if isinstance(c.func, ast.Attribute) and c.func.attr == 'update' and isinstance(c.func.value, ast.Name) and c.func.value.id == 'labels':
+                        continue
+                    argn = [a for a in list(c.args) + [k.value for k in c.keywords] if isinstance(a, ast.Name) and a.id == var]
+                    if argn:
+                        used_as_env = True
+            if not used_as_env:
+                continue
+            n += 1
+            live = isinstance(v, ast.Call) and dotted(v.func) in ('ChainMap', 'collections.ChainMap') and any(isinstance(a, ast.Name) and a.id == 'labels' for a in v.args)
+            live = live or (isinstance(v, ast.Name) and v.id == 'labels')
+            report.check(live or not mutates, rule, '{}: evaluation environment `{}` is a live view of labels'.format(name, var),
+                         lambda name=name, st=st, var=var: Finding(rule, name, st,
+                                                                  '`{}` copies the label table ({}) and is then used as the evaluation environment while this pass keeps shifting labels: '
+                                                                  'decisions later in the pass are taken on stale offsets (e.g. a backward branch judged in range for c.beqz that is not)'.format(
+                                                                      var, unparse(v)[:60]), line=st.lineno))
+    report.count('evaluation environments built from labels', n)
